@@ -256,6 +256,12 @@ class Findings:
         if os.path.exists(path):
             with open(path) as f:
                 self.items = [x for x in json.load(f).get("findings", []) if prop in x.get("property", "").split()]
+        extra = os.environ.get("VERIF_EXTRA_FINDINGS")   # development aid only (not used by registered commands)
+        if extra and os.path.exists(extra):
+            with open(extra) as f:
+                d = json.load(f)
+                d = d.get("findings", d) if isinstance(d, dict) else d
+                self.items += [x for x in d if prop in x.get("property", "").split()]
         self.hit = {}
 
     def match(self, sig):
